@@ -622,6 +622,11 @@ func (ec *ExitClassifier) maySucceed(v ssa.Value, at *ssa.BasicBlock, r *Reach, 
 	switch x := v.(type) {
 	case *ssa.MakeInterface:
 		return false
+	case *ssa.UnOp:
+		// a package-level sentinel error (var ErrX = errors.New(...)) is never nil
+		if g, ok := x.X.(*ssa.Global); ok && x.Op == token.MUL && strings.HasPrefix(g.Name(), "Err") {
+			return false
+		}
 	case *ssa.ChangeInterface:
 		return ec.maySucceed(x.X, at, r, cut, seen)
 	case *ssa.Call:
